@@ -7,9 +7,8 @@ Second part of the model of pyyeti/nastran/op4.py for C04 (core Lean only):
    values into `vec = zeros(e - s + 1)` (dense layout) or cut `coldata` along `_sparse_col_stats(rs[pv])`
    (`coldata[j : j + r1]; j += r1`, the two sparse layouts);
 2. the **true domain of `struct.pack('i', …)`**: every integer of a header / column record must fit a signed
-   32-bit integer, otherwise `struct.error` (ndarray input: Python / int64 arithmetic), or — sparse input, dense
-   layout only — the record length is computed in *numpy int32 scalar arithmetic* (scipy's COO indices are
-   int32) and wraps silently (`spRecLen`, finding F49);
+   32-bit integer, otherwise `struct.error` — on the ndarray path and (since the repair of finding F49: `s`, `e`
+   are converted to Python integers) on the scipy.sparse path alike;
 3. what the reader's `sparse=True` result *is* as a matrix: `coo_matrix((V, (I, J))).toarray()` (`cooToDense`).
 
 Library code is modelled by what it computes, not how:
@@ -125,23 +124,15 @@ def spStrings (ce : List (Nat × Entry)) : List (Nat × List Entry) :=
 def spVec (s n : Nat) (ce : List (Nat × Entry)) : List Entry :=
   ce.foldl (fun vec p => vec.set (p.1 - s) p.2) (List.replicate n ((0, 0) : Entry))
 
-/-- the two's-complement word of a numpy int32 scalar after wrapping arithmetic -/
-def wrap32 (n : Nat) : Nat := n % 4294967296
-
-/-- `reclen = 3 * 4 + elems * 8` of the dense layout for a sparse input, in numpy int32 arithmetic -/
-def spRecLen (elems : Nat) : Nat := wrap32 (3 * 4 + wrap32 (elems * 8))
-
-/-- dense column record of a sparse input (`_write_binary`, `else` branch).  `s`, `e`, `elems` are numpy int32
-scalars (scipy's COO indices), so `reclen` wraps instead of failing in `struct.pack` -/
+/-- dense column record of a sparse input (`_write_binary`, `else` branch): `s = int(rs[pv[0]])`,
+`e = int(rs[pv[-1]])`, the segment `vec`, then the same record as for an ndarray -/
 def encColDenseSp (e : Endian) (cplx : Bool) (c : Nat) (ce : List (Nat × Entry)) : List Nat :=
   match ce with
   | [] => []
   | p :: t =>
     let s := p.1
     let last := ((p :: t).getLast (by simp)).1
-    let vec := spVec s (last - s + 1) (p :: t)
-    let elems := vec.length * mult cplx
-    [spRecLen elems, c + 1, s + 1, wrap32 (2 * elems)] ++ valWords e cplx vec ++ [spRecLen elems]
+    encColDenseS e cplx c s (spVec s (last - s + 1) (p :: t))
 
 def ascColDenseSp (d : Nat) (cplx : Bool) (c : Nat) (ce : List (Nat × Entry)) : List Char :=
   match ce with
